@@ -277,3 +277,8 @@ REGISTRY['C12'] = c12_check
 import parsechecks
 REGISTRY['C16'] = lambda cx, replay=None: parsechecks.c16(cx)
 REGISTRY['C19'] = lambda cx, replay=None: parsechecks.c19(cx)
+
+
+import clichecks
+REGISTRY['C17'] = lambda cx, replay=None: clichecks.c17(cx)
+REGISTRY['C18'] = lambda cx, replay=None: clichecks.c18(cx)
